@@ -209,6 +209,81 @@ theorem t_and : isTerminal Gen.productions "AND" = true := by decide
 theorem t_or : isTerminal Gen.productions "OR" = true := by decide
 theorem t_neg : isTerminal Gen.productions "NEG" = true := by decide
 
+/-- The productions named above: what the parse-tree proofs use, i.e. what the printer writes and the parser
+model implements. -/
+def usedProductions : List Prod := [
+  ("grammar", []),
+  ("grammar", ["grammar", "macro"]),
+  ("grammar", ["grammar", "maildir"]),
+  ("macro", ["MACRO", "'='", "STRING"]),
+  ("maildir", ["maildir_paths", "exprblock"]),
+  ("maildir_paths", ["MAILDIR", "strings"]),
+  ("maildir_paths", ["STDIN"]),
+  ("exprblock", ["'{'", "exprs", "'}'"]),
+  ("exprs", []),
+  ("exprs", ["exprs", "expr"]),
+  ("expr", ["MATCH", "expr1", "expr2"]),
+  ("expr1", ["expr1", "AND", "expr1"]),
+  ("expr1", ["expr1", "OR", "expr1"]),
+  ("expr1", ["ATTACHMENT", "expr1"]),
+  ("expr1", ["NEG", "expr1"]),
+  ("expr1", ["expr3"]),
+  ("expr2", ["expractions"]),
+  ("expr2", ["exprblock"]),
+  ("expr3", ["BODY", "pattern"]),
+  ("expr3", ["HEADER", "strings", "pattern"]),
+  ("expr3", ["DATE", "date_field", "date_cmp", "date_age"]),
+  ("expr3", ["NEW"]),
+  ("expr3", ["OLD"]),
+  ("expr3", ["ALL"]),
+  ("expr3", ["ISDIRECTORY", "STRING"]),
+  ("expr3", ["COMMAND", "strings"]),
+  ("expr3", ["'('", "expr1", "')'"]),
+  ("expractions", []),
+  ("expractions", ["expractions", "expraction"]),
+  ("expraction", ["BREAK"]),
+  ("expraction", ["MOVE", "STRING"]),
+  ("expraction", ["FLAG", "flag"]),
+  ("expraction", ["FLAGS", "STRING"]),
+  ("expraction", ["DISCARD"]),
+  ("expraction", ["LABEL", "strings"]),
+  ("expraction", ["PASS"]),
+  ("expraction", ["REJECT"]),
+  ("expraction", ["EXEC", "exec_flags", "strings"]),
+  ("expraction", ["ATTACHMENT", "exprblock"]),
+  ("expraction", ["ADDHEADER", "STRING", "STRING"]),
+  ("strings", ["'{'", "stringblock", "'}'"]),
+  ("strings", ["STRING"]),
+  ("stringblock", []),
+  ("stringblock", ["stringblock", "STRING"]),
+  ("flag", ["optneg", "NEW"]),
+  ("date_field", []),
+  ("date_field", ["HEADER"]),
+  ("date_field", ["ACCESS"]),
+  ("date_field", ["MODIFIED"]),
+  ("date_field", ["CREATED"]),
+  ("date_cmp", ["'<'"]),
+  ("date_cmp", ["'>'"]),
+  ("date_age", ["INT", "scalar"]),
+  ("$@1", []),
+  ("scalar", ["$@1", "SCALAR"]),
+  ("exec_flags", []),
+  ("exec_flags", ["exec_flags", "exec_flag"]),
+  ("exec_flag", ["STDIN"]),
+  ("exec_flag", ["BODY"]),
+  ("$@2", []),
+  ("pattern", ["$@2", "PATTERN"]),
+  ("optneg", []),
+  ("optneg", ["NEG"])
+]
+
+/-- The table has nothing else but the `error` productions, and no production is named that it does not have. -/
+theorem table_is_covered :
+    Gen.productions.all (fun p => usedProductions.contains p || Gen.errorProductions.contains p) = true ∧
+    usedProductions.all (fun p => Gen.productions.contains p) = true ∧
+    Gen.errorProductions.all (fun p => p.2.contains "error" && Gen.productions.contains p && !usedProductions.contains p) = true := by
+  decide
+
 /-- The start symbol. -/
 theorem start_symbol : Gen.grammarStart = "grammar" := by decide
 
